@@ -459,9 +459,10 @@ func (cdfFile *CDRFile) Decoding(fileName string) {
 	// Length
 	numberOfCdrsInFile := binary.BigEndian.Uint32(data[18:22])
 	lengthOfCdrRouteingFilter := binary.BigEndian.Uint16(data[48:50])
-	xy := 50 + lengthOfCdrRouteingFilter
+	// offsets are computed as int: the two lengths may each be up to 65535
+	xy := 50 + int(lengthOfCdrRouteingFilter)
 	LengthOfPrivateExtension := binary.BigEndian.Uint16(data[xy : xy+2])
-	n := xy + 2 + LengthOfPrivateExtension
+	n := xy + 2 + int(LengthOfPrivateExtension)
 
 	// ip
 	var IpAddressOfNodeThatGeneratedFile [20]byte
@@ -489,12 +490,13 @@ func (cdfFile *CDRFile) Decoding(fileName string) {
 
 	tail := uint32(n)
 
+	// the extension octets follow each other: the low one comes first when the high one is absent
 	if cdfFile.Hdr.HighReleaseIdentifier == 7 {
-		cdfFile.Hdr.HighReleaseIdentifierExtension = data[n]
+		cdfFile.Hdr.HighReleaseIdentifierExtension = data[tail]
 		tail++
 	}
 	if cdfFile.Hdr.LowReleaseIdentifier == 7 {
-		cdfFile.Hdr.LowReleaseIdentifierExtension = data[n+1]
+		cdfFile.Hdr.LowReleaseIdentifierExtension = data[tail]
 		tail++
 	}
 
